@@ -84,6 +84,12 @@ class P:
 
     def unary(self):
         k, v = self.peek()
+        if k == "op" and v in ("++", "--") and self.peek(1)[0] == "id":
+            self.eat()
+            target = self.postfix(self.primary())
+            if target[0] != "id":
+                raise CxxSyntaxError("++/-- of a non-variable")
+            return ("incdec", v, target, "pre")
         if k == "op" and v in ("+", "-", "!", "*", "&"):
             self.eat()
             return ("un", v, self.unary())
@@ -195,6 +201,9 @@ class P:
                 idx = self.expr()
                 self.eat("]")
                 e = ("index", e, idx)
+            elif k == "op" and v in ("++", "--") and e[0] == "id":
+                self.eat()
+                e = ("incdec", v, e, "post")
             else:
                 return e
 
